@@ -725,7 +725,30 @@ def c_force_apply_n(view, a):
     return _cmp(a.get("kind", "exact"), sum(1 for f in flags if f), a.get("nb_constraints_to_apply", 1))
 
 
+def _ind_constraint(view, a, test):
+    d = view.dd[a["indicator"]["$"]]
+    vals = indicator_values(view, d)
+    if vals is None:
+        return None
+    res = [test(v) for v in vals]
+    if all(res):
+        return True
+    if not any(res):
+        return False
+    return None
+
+
+def c_indicator_target(view, a):
+    return _ind_constraint(view, a, lambda v: v == a["value"])
+
+
+def c_indicator_bounds(view, a):
+    lo, up = a.get("lower_bound"), a.get("upper_bound")
+    return _ind_constraint(view, a, lambda v: (lo is None or v >= lo) and (up is None or v <= up))
+
+
 _CON = {
+    "IndicatorTarget": c_indicator_target, "IndicatorBounds": c_indicator_bounds,
     "TaskStartAt": c_start_at, "TaskEndAt": c_end_at, "TaskStartAfter": c_start_after, "TaskEndBefore": c_end_before,
     "TaskPrecedence": c_precedence, "TasksStartSynced": c_start_synced, "TasksEndSynced": c_end_synced,
     "TasksDontOverlap": c_dont_overlap, "TasksContiguous": c_contiguous,
@@ -870,3 +893,138 @@ def verdict(cl):
     if any(c[3] is None for c in cl):
         return None
     return True
+
+
+# --------------------------------------------------------------------------- indicators (C08)
+def _fn_value(fdecl, x):
+    """Value of a cost function declaration at integer x."""
+    d = fdecl["$new"] if "$new" in fdecl else fdecl
+    a = d["args"]
+    if d["cls"] == "ConstantFunction":
+        return a["value"]
+    if d["cls"] == "LinearFunction":
+        return a["slope"] * x + a["intercept"]
+    if d["cls"] == "PolynomialFunction":
+        co = a["coefficients"]
+        n = len(co) - 1
+        return sum(c * x ** (n - i) for i, c in enumerate(co))
+    raise ValueError(d["cls"])
+
+
+def _cost_twice(view, wid):
+    """Twice the documented cost of one worker: sum over busy intervals of (f(bs)+f(be))*(be-bs)."""
+    wb, cb = view.busy()
+    d = view.dd[wid]
+    f = d["args"].get("cost")
+    if f is None:
+        return 0
+    tot = 0
+    for (_t, bs, be, _k) in wb[wid]:
+        if be < bs:
+            return None
+        tot += (_fn_value(f, bs) + _fn_value(f, be)) * (be - bs)
+    return tot
+
+
+def indicator_values(view, d):
+    """Set of acceptable integer values of an indicator / objective-created indicator at this leaf (None = UNSPEC)."""
+    cls, a = d["cls"], d["args"]
+    wb, cb = view.busy()
+    sched = [t for t in view.tasks if view.sched[t]]
+
+    def tasks_arg():
+        if a.get("list_of_tasks") is None:
+            return list(view.tasks)
+        return [r["$"] for r in a["list_of_tasks"]]
+
+    if cls in ("IndicatorResourceUtilization", "ObjectiveMaximizeResourceUtilization"):
+        rid = a["resource"]["$"]
+        if rid not in wb:
+            return None
+        if any(be < bs for (_t, bs, be, _k) in wb[rid]):
+            return None
+        busy = sum(be - bs for (_t, bs, be, _k) in wb[rid])
+        H = view.horizon
+        if not H:
+            return None
+        exact = 100 * busy / H
+        return {r for r in range(int(exact) - 1, int(exact) + 2) if abs(r - exact) < 1}
+    if cls == "IndicatorNumberTasksAssigned":
+        rid = a["resource"]["$"]
+        if rid not in wb:
+            return None
+        return {len(wb[rid])}
+    if cls in ("IndicatorResourceCost", "ObjectiveMinimizeResourceCost"):
+        tot2 = 0
+        for r in a["list_of_resources"]:
+            rid = r["$"]
+            if rid not in wb:
+                return None
+            f = view.dd[rid]["args"].get("cost")
+            c2 = _cost_twice(view, rid)
+            if c2 is None:
+                return None
+            tot2 += c2
+        return {tot2 // 2, -((-tot2) // 2)}
+    if cls == "IndicatorResourceIdle":
+        rid = a["resource"]["$"]
+        if rid not in wb:
+            return None
+        lst = sorted((bs, be) for (_t, bs, be, _k) in wb[rid])
+        if any(be <= bs for bs, be in lst):
+            return None
+        return {sum(q[0] - p[1] for p, q in zip(lst, lst[1:]))}
+    if cls in ("IndicatorTardiness", "IndicatorEarliness", "IndicatorNumberOfTardyTasks", "IndicatorMaximumLateness"):
+        ts = [t for t in tasks_arg() if view.sched[t]]
+        if any(view.tasks[t]["args"].get("due_date") is None for t in tasks_arg()):
+            return None
+        due = {t: view.tasks[t]["args"]["due_date"] for t in ts}
+        if cls == "IndicatorTardiness":
+            if any(view.tasks[t]["args"].get("priority", 1) != 1 for t in ts):
+                return None
+            return {sum(max(0, view.end[t] - due[t]) for t in ts)}
+        if cls == "IndicatorEarliness":
+            return {sum(max(0, due[t] - view.end[t]) for t in ts)}
+        if cls == "IndicatorNumberOfTardyTasks":
+            return {sum(1 for t in ts if view.end[t] > due[t])}
+        if not ts:
+            return None
+        return {max(view.end[t] - due[t] for t in ts)}
+    if cls == "ObjectiveMinimizeFlowtime":
+        return {sum(view.end[t] for t in tasks_arg() if view.sched[t])}
+    if cls == "ObjectivePriorities":
+        return {sum(view.end[t] * view.tasks[t]["args"].get("priority", 1) for t in sched)}
+    if cls == "ObjectiveTasksStartEarliest":
+        return {sum(view.start[t] * view.tasks[t]["args"].get("priority", 1) for t in sched)}
+    if cls == "ObjectiveTasksStartLatest":
+        ts = [t for t in tasks_arg() if view.sched[t]]
+        return {min(view.start[t] for t in ts)} if ts else None
+    if cls == "ObjectiveMinimizeGreatestStartTime":
+        ts = [t for t in tasks_arg() if view.sched[t]]
+        return {max(view.start[t] for t in ts)} if ts else None
+    if cls == "ObjectiveMinimizeFlowtimeSingleResource":
+        rid = a["resource"]["$"]
+        lo, hi = a.get("time_interval") or (0, view.horizon)
+        ts = [(bs, be) for (_t, bs, be, _k) in wb.get(rid, []) if bs >= lo and be <= hi]
+        if not ts or len(ts) != len(wb.get(rid, [])):
+            return None
+        return {max(e for _s, e in ts) - min(s for s, _e in ts)}
+    if cls in ("IndicatorMaxBufferLevel", "IndicatorMinBufferLevel", "ObjectiveMaximizeMaxBufferLevel", "ObjectiveMinimizeMaxBufferLevel"):
+        bid = a["buffer"]["$"]
+        if any(not s for s in view.sched.values()):
+            return None
+        b = view.dd[bid]["args"]
+        verdict, times, deltas = buffer_walk(view, bid)
+        init = b.get("initial_level")
+        if init is None:
+            init = b["final_level"] - sum(deltas)
+        levels = [init]
+        for dq in deltas:
+            levels.append(levels[-1] + dq)
+        return {min(levels)} if cls == "IndicatorMinBufferLevel" else {max(levels)}
+    if cls == "IndicatorFromMathExpression":
+        v = ev(view, a["expression"]["$e"])
+        if v is None or isinstance(v, bool):
+            return None
+        return {v}
+    return None
